@@ -594,7 +594,7 @@ def pixel_records(T, mode, rng, positions="start"):
             if rng.random() < 0.25 and mode != "duplex":
                 continue                   # leave some pixels empty
             recs.append((a, b))
-    return recs
+    return recs or [(0, 0)]        # never an empty input file (that is another property's business)
 
 
 MODE_FLAGS = {"unique": [], "duplex": ["--input-copy-status", "duplex"], "square": ["-N"]}
@@ -1067,7 +1067,7 @@ def unit_table(B, T, first, do_cli, do_inv, first_three=True):
     if not do_cli:
         return
     if B.thorough:
-        small_sizes = lambda n, z=1: sorted({n + 1, n, max(2, n // 2), max(2, n // 4), 7})  # noqa: E731
+        small_sizes = lambda n, z=1: sorted({n + 1, max(1, n), max(2, n // 2), max(2, n // 4), 7})  # noqa: E731
     else:
         small_sizes = lambda n, z=1: [n + 1, max(2, n // 3)] if z else [max(2, n // 2)]  # noqa: E731
     cli_load(B, T, small_sizes, coo=B.thorough or T.name in ("variable", "fixed10-short-last"))
@@ -1140,6 +1140,8 @@ def run_units(B, units, workers):
         for v in r["violations"]:
             if v["signature"] not in {w["signature"] for w in viol}:
                 viol.append(v)
+            elif os.path.exists(v["replay"]) and v["replay"] not in {w["replay"] for w in viol}:
+                os.remove(v["replay"])      # one recorded case per signature: drop the other units' duplicates
     B.evaluations, B.nontrivial, B.samples, B.violations, B.contracts = ev, nt, samples, viol, contracts
     B.sig_seen.clear()
     B.sig_seen.update(seen)
